@@ -898,3 +898,50 @@ vk_harness!(c10_def_step, {
     vk_cover!(pc0 >= entry, "reach: def in direct mode");
     core::mem::forget(r);
 });
+
+// ---------------------------------------------------------------------------------------------------------------
+// C19: a program with compile-time errors executes none of its lines
+
+fn jump_into_program_with_errors(target: usize) {
+    let mut r = Runtime::default();
+    // stored program at address 0 (one instruction), direct code from address 1: GOTO / RUN compile to a jump
+    load_ops(&mut r, vec![Opcode::Literal(Val::Integer(1)), Opcode::Jump(target), Opcode::End]);
+    r.entry_address = 1;
+    r.pc = 1;
+    r.state = State::Running;
+    let mut errs: Vec<Error> = Vec::new();
+    errs.push(error!(UndefinedLine, Some(vk::any_u16()), ..&(1..2)));
+    r.listing.indirect_errors = Arc::new(errs);
+    let ev = r.execute(3);
+    if target < 1 {
+        vk_check!(matches!(&ev, Event::Errors(v) if v.len() == 1), "C19: entering a program that has compile-time errors reports them");
+        vk_check!(code_of_state(&r.state) == 1 && code_of_state(&r.cont) == 1, "C19: ... and stops without a continuation");
+        vk_check!(r.stack.len() == 0, "C19: none of the program's instructions may have executed");
+    } else {
+        vk_check!(!matches!(&ev, Event::Errors(_)), "C19: a direct statement that does not enter the program still works");
+        vk_check!(code_of_state(&r.state) == 1, "C19: the direct statement ran to its END");
+    }
+    vk_cover!(true, "reach: jump with compile errors present");
+    core::mem::forget(r);
+    core::mem::forget(ev);
+}
+
+//@ prop: C19
+//@ tier: quick
+//@ unwind: 12
+//@ verbose: off
+//@ encodes: Runtime::execute; Runtime::execute_loop (Opcode::Jump gate on indirect errors)
+//@ bounds: program of one instruction with one recorded compile-time error (any line number); direct code jumps INTO the program (address 0)
+vk_harness!(c19_jump_into_program_with_errors_stops, {
+    jump_into_program_with_errors(0);
+});
+
+//@ prop: C19
+//@ tier: quick
+//@ unwind: 12
+//@ verbose: off
+//@ encodes: Runtime::execute; Runtime::execute_loop (Opcode::Jump gate on indirect errors)
+//@ bounds: program of one instruction with one recorded compile-time error; direct code jumps within the DIRECT code (address 2)
+vk_harness!(c19_direct_jump_still_works_with_errors, {
+    jump_into_program_with_errors(2);
+});
